@@ -1,7 +1,7 @@
 """C02 — Per-file history and last-changed revisions are recorded correctly.
 
 One run = one generated DAG history (1-4 branches; commits, merges with per-file
-decisions, criss-cross merges, revert-one-file-after-merge, identical parallel changes,
+decisions, octopus merges with 3-4 parents, criss-cross merges, revert-one-file-after-merge, identical parallel changes,
 cherry-picks, kind changes, renames/moves, exec-bit changes, resurrected file ids, ghost
 right-hand parents) committed through real working trees (lightweight checkouts on local
 scratch disk of branches on simulated stores) into one shared repository or into one
@@ -20,12 +20,14 @@ RULE = (
     "one case = one seeded history (format 2a | pack-0.92 | rich-root-pack, layout shared repository | one repository "
     "per branch joined by fetch, 6-30 revisions over 1-4 branches, re-open and pack() steps); non-trivial = the history "
     "contains a merge revision in which some file has two or more distinct candidate versions among the parents (the "
-    "heads rule decides: carry-over from a non-first parent, revert after merge, identical parallel change, criss-cross); "
+    "heads rule decides: carry-over from a non-first parent, revert after merge, identical parallel change, criss-cross, "
+    "octopus merges whose right-hand parents share a version / are ancestors of each other / equal the basis); "
     "distinct = distinct event-log digests (store operation traces) of such runs"
 )
 COMPONENTS = {
     "real": [
         "breezy.commit.Commit on WorkingTree4/6 (dirstate iter_changes, Rust)",
+        "Branch.get_commit_builder + record_iter_changes called directly with an explicit parent list for some octopus merges (a working tree drops right-hand parents that are not heads, so redundant parent lists can only be recorded this way)",
         "VersionedFileCommitBuilder.record_iter_changes, PackCommitBuilder._heads (per-file graph heads)",
         "pack repositories 2a / pack-0.92 / rich-root-pack: texts, inventories, CHK maps, pack()",
         "Repository.fetch between the per-branch repositories",
@@ -57,7 +59,7 @@ def config(tier):
 def generate(rng, tier):
     fmt = rng.choice(FORMATS)
     layout = rng.choice(["shared", "shared", "separate"])
-    g = DagGen(rng, ghosts=rng.choice([0.0, 0.0, 0.1]))
+    g = DagGen(rng, ghosts=rng.choice([0.0, 0.0, 0.1]), octopus=rng.choice([0.0, 0.1, 0.2]))
     specs = g.run(rng.randint(6, 30), merge_p=rng.choice([0.25, 0.35, 0.5]))
     ops = []
     for s in specs:
@@ -79,7 +81,7 @@ def situation(mh, rid, fid):
     spec = mh.revs[rid]
     parents = [p for p in spec["parents"] if p in mh.revs]
     heads, carried = mh.file_rule(fid, spec["tree"][fid], parents)
-    kind = "merge" if len(parents) > 1 else "linear"
+    kind = "octopus" if len(parents) > 2 else "merge" if len(parents) > 1 else "linear"
     if len(heads) != 1:
         return f"{kind}:heads{min(len(heads), 3)}"
     h = heads[0]
@@ -142,6 +144,13 @@ def execute(sim, plan):
         for fid in spec["tree"]:
             heads = mh.fpar.get((fid, spec["id"]))
             cands = {mh.ver[p][fid] for p in parents if fid in mh.revs[p]["tree"]}
+            if len(parents) > 2:
+                vers = [mh.ver[p][fid] if fid in mh.revs[p]["tree"] else None for p in parents]
+                rh = [v for v in vers[1:] if v is not None]
+                if any(rh.count(v) > 1 and v != vers[0] for v in rh):
+                    sim.probe("octopus_two_right_parents_same_version_differing_from_basis")
+                if vers[0] is not None and vers[0] in rh and len(cands) > 1:
+                    sim.probe("octopus_right_parent_equal_to_basis_on_file")
             if len(parents) > 1 and len(cands) > 1:
                 interesting = True
                 if heads is None:
